@@ -94,9 +94,18 @@ def core3Sample : Core3.Func :=
       ⟨none, 82, [.tyval (.int 32) (.loc (.id 1)), .lab (.id 2)], .cases [(.int 32, .int 3, .id 2), (.int 32, .int (-1), .name [115])]⟩⟩,
     ⟨.name [105], [],
       ⟨some (.id 3), 84, [.ty (.int 32), .val (.glob [102]), .tyvals [(.int 32, .loc (.id 1)), (.int 32, .const (.int 7))]], .dests (.id 2) (.name [108])⟩⟩,
-    ⟨.name [108], [⟨some (.id 4), 85, [.ty (.struct false (.cons (.ptr (.int 8) 0) (.cons (.int 32) .nil)))],
+    -- indirectbr i8* null, [label %2, label %s] //
+    -- cs: %4 = catchswitch within none [label %cp] unwind to caller // cp: %5 = catchpad within %4 [i32 7] / catchret from %5 to label %2 //
+    -- cl: %6 = cleanuppad within %5 [] / cleanupret from %6 unwind label %cs
+    ⟨.name [105, 98], [], ⟨none, 91, [.tyval (.ptr (.int 8) 0) (.const .null), .labs [.id 2, .name [115]]], .none⟩⟩,
+    ⟨.name [99, 115], [], ⟨some (.id 4), 92, [.pad none, .labs [.name [99, 112]], .unwind none], .none⟩⟩,
+    ⟨.name [99, 112], [⟨some (.id 5), 95, [.loc (.id 4), .tyvals [(.int 32, .const (.int 7))]], .none⟩],
+      ⟨none, 93, [.loc (.id 5), .lab (.id 2)], .none⟩⟩,
+    ⟨.name [99, 108], [⟨some (.id 6), 96, [.pad (some (.id 5)), .tyvals []], .none⟩],
+      ⟨none, 94, [.loc (.id 6), .unwind (some (.name [99, 115]))], .none⟩⟩,
+    ⟨.name [108], [⟨some (.id 7), 85, [.ty (.struct false (.cons (.ptr (.int 8) 0) (.cons (.int 32) .nil)))],
                     .clauses true [(false, .ptr (.int 8) 0, .const .null)]⟩],
-      ⟨none, 86, [.tyval (.struct false (.cons (.ptr (.int 8) 0) (.cons (.int 32) .nil))) (.loc (.id 4))], .none⟩⟩]⟩
+      ⟨none, 86, [.tyval (.struct false (.cons (.ptr (.int 8) 0) (.cons (.int 32) .nil))) (.loc (.id 7))], .none⟩⟩]⟩
 
 example : Core3.wf core3Sample = true := by decide +kernel
 
